@@ -13,6 +13,10 @@ Tie to /repo (C, hand-written model + correspondence):
     non-aliased, out-of-place, shuffled, at least two aliased) with different inputs; every
     call is compared with a freshly built operator and with the model program run from a fresh
     store (the straight-line programs are stateless; this stream ties that to the code);
+  * cross-instance history: 2 instances from the SAME factory object (different scalar /
+    element-valued step sizes) and one from a second factory call (plain operator classes: 3
+    instances) receive interleaved aliased / non-aliased / out-of-place calls; every call is
+    compared with an operator built by a NEW factory call and called once, and with the model;
   * the proximal Operator classes (any file under odl/solvers; name, location or enclosing
     function mentions `prox`) whose `_call` takes `out` are read from the AST and must be covered
     by the model's class table (and vice versa); the aliased call sites `f(a, out=a)` of the
@@ -253,6 +257,8 @@ def build(plan, kind, rng, xclass):
     sigvals = np.array([rng.choice([0.5, 1.0, 2.0, 4.0]) for _ in range(N)])
     lam, sigma = par['lam'], par['sigma']
     P = None
+    F = None            # the factory object (sigma -> operator), when the class comes from one
+    skind = 'scalar'    # kind of step size the created instance received
     if mid == 'box':
         lo_s, up_s = rng.random() < 0.5, rng.random() < 0.5
         lov = np.full(N, rng.choice([-1.0, 0.0, -0.5])) if lo_s else grid(rng, N, -16, 0)
@@ -266,7 +272,8 @@ def build(plan, kind, rng, xclass):
             bufs['up'] = upv
             upper = float(upv[0]) if up_s else make_elem(space, upv)
             elems['up'] = upper
-        P = po.proximal_box_constraint(space, lower=lower, upper=upper)(sigma)
+        F = po.proximal_box_constraint(space, lower=lower, upper=upper)
+        P = F(sigma)
     elif mid in ('l2', 'ccL1', 'ccL1L2', 'l1l2', 'ccKL', 'ccKLCE'):
         g = None
         if fl[0] == '1':
@@ -286,7 +293,8 @@ def build(plan, kind, rng, xclass):
                 e0 = np.zeros(N)
                 e0[rng.randrange(N)] = sigma * lam * rng.choice([-1.0, 1.0]) / np.sqrt(w)
                 x = (gvals if g is not None else 0) + e0
-        P = fac(space, lam=lam, g=g)(sigma)
+        F = fac(space, lam=lam, g=g)
+        P = F(sigma)
     elif mid in ('ccL2Sq', 'l2Sq', 'l1'):
         g = None
         if fl[1] == '1':
@@ -305,28 +313,35 @@ def build(plan, kind, rng, xclass):
             sl = (sigvals if fl[0] == '1' else sigma) * lam
             x = (gvals if g is not None else 0) + sl * np.array(
                 [rng.choice([-1.0, 1.0]) for _ in range(N)])
-        P = fac(space, lam=lam, g=g)(s)
+        F = fac(space, lam=lam, g=g)
+        skind = 'element' if fl[0] == '1' else 'scalar'
+        P = F(s)
     elif mid == 'linfty':
         par['sigma'] = par['radius']
-        P = po.proximal_linfty(space)(par['sigma'])
+        F = po.proximal_linfty(space)
+        P = F(par['sigma'])
         if xclass == 'thr':
             x = l1_threshold(N, par['sigma'] / par['cw'], rng)   # ||x||_1 = radius exactly
     elif mid == 'ccLinfty':
-        P = po.proximal_convex_conj_linfty(space)(sigma)
+        F = po.proximal_convex_conj_linfty(space)
+        P = F(sigma)
         if xclass == 'thr':
             x = l1_threshold(N, 1.0 / par['cw'], rng)
     elif mid == 'huber':
-        P = po.proximal_huber(space, par['gamma'])(sigma)
+        F = po.proximal_huber(space, par['gamma'])
+        P = F(sigma)
         if xclass == 'thr':
             x = (par['gamma'] + sigma) * np.array([rng.choice([-1.0, 1.0, 0.5]) for _ in range(N)])
     elif mid == 'simplex':
         if fl == '1':
             bufs['sig'] = np.asarray(space.weighting.array, dtype=float).ravel().copy()
-        P = odl.solvers.IndicatorSimplex(space, diameter=par['radius']).proximal(sigma)
+        F = odl.solvers.IndicatorSimplex(space, diameter=par['radius']).proximal
+        P = F(sigma)
     elif mid == 'sumc':
         if fl == '1':
             bufs['sig'] = np.asarray(space.weighting.array, dtype=float).ravel().copy()
-        P = odl.solvers.IndicatorSumConstraint(space, sum_value=par['radius']).proximal(sigma)
+        F = odl.solvers.IndicatorSumConstraint(space, sum_value=par['radius']).proximal
+        P = F(sigma)
     elif mid == 'scaling':
         P = odl.ScalingOperator(space, par['a']) if par['a'] != 1.0 else odl.IdentityOperator(space)
     elif mid == 'lincombOp':
@@ -350,7 +365,7 @@ def build(plan, kind, rng, xclass):
         # the factory closes over lam * (1 - 10 * resolution): read the value actually used
         par['lam'] = closure_var(P, 'lam', lam)
     return dict(plan=plan, kind=kind, space=space, n=n, mc=mc, w=w, par=par, bufs=bufs, x=x,
-                P=P, xclass=xclass, elems=elems)
+                P=P, xclass=xclass, elems=elems, F=F, skind=skind)
 
 
 def l1_threshold(N, r, rng):
@@ -985,12 +1000,104 @@ def history_sequence(ctx, plan, kind, hseed, lines, pending):
             pending.append((ck, desc, mode, got))
 
 
+def sibling(c, rng):
+    """Another instance from the SAME factory object with a different step size (same kind:
+    scalar or element-valued); returns the case dict describing it for the model."""
+    F = c['F']
+    N = c['n'] * c['mc']
+    par, bufs = dict(c['par']), dict(c['bufs'])
+    if c['skind'] == 'element':
+        sv = np.array([rng.choice([0.25, 0.5, 1.0, 2.0, 4.0, 8.0]) for _ in range(N)])
+        bufs['sig'] = sv
+        P = F(make_elem(c['space'], sv))
+    else:
+        s2 = rng.choice([v for v in (0.25, 0.5, 1.0, 2.0, 4.0) if v != par['sigma']])
+        par['sigma'] = s2
+        P = F(s2)
+    return dict(c, par=par, bufs=bufs, P=P)
+
+
+def cross_instance_sequence(ctx, plan, kind, hseed, lines, pending):
+    """Several instances of one class — 2 from the SAME factory object with different step
+    sizes, 1 from a second factory call with other data (for plain operator classes: 3 instances
+    with different parameters) — receive interleaved aliased / non-aliased / out-of-place calls.
+    State shared at class or factory-closure level (class attributes, closure variables,
+    default-argument objects) makes a later instance wrong. Reference for every call: an
+    operator built by a NEW factory call with the same parameters (a new class object, called
+    exactly once) — and the model program from a fresh store."""
+    import random
+    rng = random.Random(hseed)
+    cseed, cseed2 = rng.getrandbits(48), rng.getrandbits(48)
+    try:
+        c1 = build(plan, kind, cseed, 'gen')
+        c3 = build(plan, kind, cseed2, 'gen')
+        insts = [('A', c1, cseed, None), ('C', c3, cseed2, None)]
+        if c1['F'] is not None:
+            sseed = rng.getrandbits(48)
+            insts.insert(1, ('B', sibling(c1, random.Random(sseed)), cseed, sseed))
+        else:
+            cseed3 = rng.getrandbits(48)
+            insts.insert(1, ('B', build(plan, kind, cseed3, 'gen'), cseed3, None))
+    except Exception:  # reported by the prog stream
+        return
+    ctx.hit('history/cross-instance/{}/{}'.format(plan.mid, plan.flags or '-'))
+    order = []
+    for k in range(9):
+        order.append((rng.randrange(len(insts)), rng.choice(['alias', 'alias', 'junk', 'oop'])))
+    # make sure every instance is called aliased at least once, in instance order A, B, C first
+    order = [(i, 'alias') for i in range(len(insts))] + order
+    done = []
+    for k, (i, mode) in enumerate(order):
+        name, c, seed_i, sseed = insts[i]
+        space = c['space']
+        N = c['n'] * c['mc']
+        xk = grid(rng, N) * rng.choice([1.0, 1.0, 8.0, 0.0625])
+        if plan.mid == 'power' and c['par']['p'] not in (2.0, 3.0):
+            xk = np.abs(xk) + 0.125
+        second = make_elem(space, c['bufs']['g']) if plan.mid == 'lincombOp' else None
+        got = call_real(c['P'], make_elem(space, xk), mode, space, second)
+        # isolated reference: a NEW factory call (new class object / closure), one call
+        ref_c = build(plan, kind, seed_i, 'gen')
+        if sseed is not None:
+            ref_c = sibling(ref_c, random.Random(sseed))
+        sec2 = make_elem(space, c['bufs']['g']) if plan.mid == 'lincombOp' else None
+        ref = call_real(ref_c['P'], make_elem(space, xk), 'oop', space, sec2)
+        desc = dict(describe(dict(c, x=xk)), kind='cross', hseed=hseed, call=k, mode=mode,
+                    instance=name, before=['{}:{}'.format(insts[j][0], m) for j, m in done])
+        key = 'history/cross-instance {} flags={} space={} call#{} instance={} mode={}'.format(
+            plan.mid, plan.flags or '-', kind, k, name, mode)
+        done.append((i, mode))
+        ctx.case(('cross', plan.mid, plan.flags, kind, name, mode)
+                 if ref[0] == 'ok' and np.any(ref[1] != 0) else None)
+        if ref[0] != 'ok':
+            continue
+        if got[0] != 'ok':
+            ctx.violation(key, 'call raises {} while an isolated instance gives a result'.format(
+                got[0]), desc)
+            continue
+        if not same(got[1], ref[1], True):
+            bad = int(np.argmax(~np.isclose(got[1], ref[1], rtol=1e-9, atol=1e-12, equal_nan=True)))
+            ctx.violation(key, 'instance {} ({} call) after the calls {} on sibling instances of '
+                          'the same class / factory differs from an operator built in isolation '
+                          'at flat index {}: got {!r}, isolated {!r}'.format(
+                              name, mode, desc['before'][-6:], bad, float(got[1][bad]),
+                              float(ref[1][bad])), desc)
+        if mode != 'oop' and lines is not None:
+            ck = dict(c, x=xk)
+            lines.append(model_line(ck, mode == 'alias', junk_vals(N)))
+            pending.append((ck, desc, mode, got))
+
+
 def history_stream(ctx, reps):
     lines, pending = [], []
     for plan in plans():
         for kind in plan.kinds:
             for rep in range(reps):
                 history_sequence(ctx, plan, kind, ctx.rng.getrandbits(48), lines, pending)
+        # instances of one class interleaved (first space kind of the plan; all in thorough)
+        for kind in (plan.kinds[:1] if ctx.quick else plan.kinds):
+            for rep in range(reps):
+                cross_instance_sequence(ctx, plan, kind, ctx.rng.getrandbits(48), lines, pending)
     outs = core.run_driver('C10', lines)
     for (ck, desc, mode, got), ans in zip(pending, outs):
         if not ans.startswith('ok '):
@@ -1029,6 +1136,7 @@ def repeated_alias(ctx, key, P, space, n_inputs, rs, label):
 def report_unhit(ctx):
     expected = ['prog/{}/{}'.format(p.mid, p.flags or '-') for p in plans()] + \
         ['history/{}/{}'.format(p.mid, p.flags or '-') for p in plans()] + \
+        ['history/cross-instance/{}/{}'.format(p.mid, p.flags or '-') for p in plans()] + \
         ['branch/l2/step<1(lincomb)', 'branch/l2/step>=1(set_zero|assign g)',
          'branch/proj_l1/inside-ball(copy)', 'branch/proj_l1/outside(simplex)']
     unhit = [b for b in expected if not ctx.branches.get(b)]
@@ -1096,6 +1204,11 @@ def replay(ctx, case):
         _, problems = oracle(sub, None, None, c['P'], x_elem, c['space'], plan[0].tol, second,
                              frames)
         return '; '.join(problems) if problems else None
+    if case.get('kind') == 'cross' and plan and case.get('hseed') is not None:
+        cross_instance_sequence(sub, plan[0], case['space'], case['hseed'], None, None)
+        hits = [v for v in sub.violations if v['replay'].get('call') == case.get('call')] or \
+            sub.violations
+        return hits[0]['what'] if hits else None
     if case.get('kind') == 'history' and plan and case.get('hseed') is not None:
         history_sequence(sub, plan[0], case['space'], case['hseed'], None, None)
         hits = [v for v in sub.violations if v['replay'].get('call') == case.get('call')] or \
